@@ -10,7 +10,11 @@ Stage B (correspondence with the Lean model Ptn.C08):
                  LegSpecifications, parent / child order / shape of the contracted node, shape after
                  the absorption, parent / child order / shape of the two nodes after the split;
   * `seq`        child order of every node after whole TEBD steps (each two-site gate makes the
-                 child the first child of its parent).
+                 child the first child of its parent);
+  * `expsites`   site identifiers of TEBD.exponents (swap pairs, TensorProduct keys in dict order) for
+                 swaps given as SWAPlist / plain list / None;
+  * `steprec`    the model's global binding record of all time steps (which physical leg every gate
+                 input meets), evaluated densely, must reproduce the implementation's final state.
 Stage C (oracle): the state vector after every TEBD step against the product, in list order, of
   dense gates built here (expm of kron products embedded with kron + axis permutation; SWAP = exchange
   of two axes); identifiers and parent/child relations unchanged; bond bound under truncation;
@@ -33,8 +37,8 @@ from harness.common import CORPUS_DIR, HarnessError
 RULE = ("tebd cases: random tree (1-6 nodes, physical dimensions from {1,2,3}, sometimes a node without "
         "physical leg), random TTNS with shuffled insertion-time legs, Trotter splitting of single-site "
         "and tree-adjacent two-site TensorProducts in either key order (Hermitian or not, A != B), real "
-        "factors (int, 0, negative), SWAP lists before/after between adjacent equal-dimension sites, built "
-        "through TrotterStep or from_lists, 1-3 steps, truncation off (vector compared after every step) "
+        "factors (int, 0, negative), SWAP lists before/after between adjacent equal-dimension sites (as "
+        "SWAPlist, plain list of pairs, or None when empty), built through TrotterStep or from_lists, 1-3 steps, truncation off (vector compared after every step) "
         "or on (bond bound); legs cases: one pair of adjacent nodes with 0-2 further children on each "
         "side, optional grandparent, 0-2 open legs per node, both argument orders (all 1944 layouts in "
         "the thorough tier); swap cases: every dimension 0..7 (0..12 thorough). non-trivial = distinct "
@@ -48,9 +52,10 @@ PARTIAL = [
     "scipy.linalg.expm and numpy.linalg.svd are used by contract (expm validated against an own "
     "scaling-and-squaring Taylor series and, for Hermitian generators, eigh; SVD by the reproduced vector)",
     "the bond bound under truncation is decided by the oracle only (selection rule: property C10)",
-    "several gates in sequence and the renaming of the pair in the neighbours' parent/children fields "
-    "(replace_node_in_neighbours) are covered by a per-gate theorem plus the exact correspondence of the "
-    "tree-level `seq` function with whole TEBD steps, not by a theorem about sequences",
+    "the renaming of the pair in the neighbours' parent/children fields (replace_node_in_neighbours) and the "
+    "root bookkeeping are not modelled: the tree-level model keeps the neighbours' entries fixed (theorems "
+    "tebd_step_legs / tebd_steps_legs cover whole steps and several steps of that model; its tree and its "
+    "global binding record are compared with whole TEBD runs by the `seq` / `steprec` correspondence)",
     "dimensions are not part of the model (shape checks of tensordot / reshape are exercised by the runs)",
 ]
 ASSUMPTIONS = [
@@ -58,7 +63,7 @@ ASSUMPTIONS = [
     "every node named by an operator has exactly one physical leg (TEBD's to_tensor reshapes to one "
     "leg per named node)",
     "int(i / d) in swap_gate (float division) equals the integer quotient (true for all indices < 2**53)",
-    "swap lists are SWAPlist instances (plain lists of pairs raise AttributeError: candidate finding F-C08a)",
+    "swap lists are SWAPlist instances, plain lists of pairs (wrapped since the repair F-C08a) or None",
 ]
 
 TOL = 1e-9
@@ -197,6 +202,12 @@ def gen_tebd_case(rng: random.Random, trunc: bool) -> Dict[str, Any]:
             "tseed": rng.randrange(10 ** 9), "tps": tps, "splitting": splitting,
             "dt": rng.choice([0.1, 0.05, 0.3, 0.01]), "steps": rng.choice([1, 1, 2, 3]),
             "via": rng.choice(["steps", "from_lists"]), "svd": None}
+    # how swap lists are handed over: SWAPlist objects, plain lists of pairs (repair F-C08a), None when empty
+    r = rng.random()
+    if r < 0.2:
+        case["plain"] = True
+    elif r < 0.35:
+        case["none_empty"] = True
     if trunc:
         case["svd"] = {"max_bond_dim": rng.randint(1, 4),
                        "rel_tol": rng.choice([float("-inf"), 0.0, 1e-15, 1e-6, 1e-2, 0.3]),
@@ -236,7 +247,11 @@ def build_tebd(case):
         mats = [_matrix(mrng, phys[s], tp["herm"]) for s in tp["sites"]]
         tp_mats.append(mats)
         tp_objs.append(TensorProduct({names[s]: m for s, m in zip(tp["sites"], mats)}))
-    mk = (lambda x: list(x)) if case.get("plain") else SWAPlist      # plain lists: see F-C08a
+    base = (lambda x: list(x)) if case.get("plain") else SWAPlist      # plain lists: see F-C08a
+    if case.get("none_empty") and case["via"] == "steps":
+        mk = lambda x: (base(x) if x else None)                        # noqa: E731
+    else:
+        mk = base
     before = [mk([(names[a], names[b]) for a, b in tp["before"]]) for tp in case["tps"]]
     after = [mk([(names[a], names[b]) for a, b in tp["after"]]) for tp in case["tps"]]
     if case["via"] == "from_lists":
@@ -298,7 +313,49 @@ def tebd_model_lines(case, expected, ttns, names) -> List[str]:
     pairs = [f"{num[e['sites'][0]]}-{num[e['sites'][1]]}" for e in expected if len(e["sites"]) == 2]
     for k in range(1, case["steps"] + 1):
         lines.append("C08 seq " + " ".join(tree) + " / " + " ".join(pairs * k))
+    # site identifiers of TEBD.exponents
+    def swaptok(pairs_):
+        if not pairs_ and case.get("none_empty") and case["via"] == "steps":
+            return "n"
+        body = ",".join(f"{a}-{b}" for a, b in pairs_)
+        return ("p:" if case.get("plain") else "s:") + body
+    stoks = []
+    for i, _f in case["splitting"]:
+        tp = case["tps"][i]
+        stoks.append(",".join(str(x) for x in tp["sites"]) + "/" + swaptok(tp["before"]) + "/" + swaptok(tp["after"]))
+    lines.append("C08 expsites " + " ".join(stoks))
+    # the global binding record of all time steps
+    ops = ["-".join(str(num[x]) for x in e["sites"]) for e in expected]
+    lines.append("C08 steprec " + " ".join(tree) + " / " + " ".join(ops * case["steps"]))
     return lines
+
+
+def eval_record(record: str, expected, steps: int, v0: np.ndarray, order, dims, num) -> np.ndarray:
+    """Dense evaluation of the model's binding record: gate number g (the (g mod len)-th operator of
+    the step) has its input k contracted with the physical leg the record names; its output k takes the
+    place of that leg.  Leg names: s<site> initial leg of a site, o<g>.<k> output k of gate g."""
+    inv = {v: k for k, v in num.items()}
+    axis_of: Dict[str, int] = {f"s{num[n]}": order.index(n) for n in order}
+    by_gate: Dict[int, Dict[int, str]] = {}
+    for tok in record.split():
+        g, k, leg = tok.split(":")
+        by_gate.setdefault(int(g), {})[int(k)] = leg
+    vec = v0.reshape(list(dims) if len(dims) else [1])
+    n_ops = len(expected)
+    for g in range(n_ops * steps):
+        e = expected[g % n_ops]
+        ins = by_gate.get(g, {})
+        if sorted(ins) != list(range(len(e["sites"]))):
+            raise ValueError(f"gate {g}: record names inputs {sorted(ins)}")
+        axes = [axis_of[ins[k]] for k in range(len(e["sites"]))]
+        ds = [vec.shape[a] for a in axes]
+        gate = e["small"].reshape(ds + ds)
+        vec = np.tensordot(gate, vec, axes=(list(range(len(ds), 2 * len(ds))), axes))
+        vec = np.moveaxis(vec, list(range(len(ds))), axes)
+        for k, a in enumerate(axes):
+            axis_of[f"o{g}.{k}"] = a
+    del inv
+    return vec.reshape(-1)
 
 
 def _case_tebd(ctx, case, model_out: Optional[List[str]] = None):
@@ -441,6 +498,29 @@ def _case_tebd(ctx, case, model_out: Optional[List[str]] = None):
                     if d > lim:
                         ctx.oracle_fail(case, f"step {k}: bond {p}-{c} has dimension {d} > max_bond_dim {mb}")
                         return
+        # ---- correspondence: site identifiers of the exponents
+        if len(model_out) >= steps + 3:
+            impl_sites = " ".join("-".join(str(num[x]) for x in op.node_identifiers) or "_" for op in exps)
+            if impl_sites != model_out[steps + 1]:
+                ctx.corr_fail(case, f"sites of TEBD.exponents: model {model_out[steps + 1]!r}, implementation {impl_sites!r}")
+            # ---- correspondence: the model's global binding record, evaluated densely
+            rec_out = model_out[steps + 2]
+            if rec_out in ("error", "bad-op") or " | " not in rec_out + " ":
+                ctx.corr_fail(case, f"model step record: {rec_out!r} for an admissible step")
+            else:
+                record, _, tree_out = rec_out.partition("|")
+                final_tree = " ".join(_tree_tokens(algo.state, num))
+                if tree_out.strip() != final_tree:
+                    ctx.corr_fail(case, f"tree after {steps} steps: model {tree_out.strip()!r}, implementation {final_tree!r}")
+                if svd is None:
+                    try:
+                        mvec = eval_record(record, expected, steps, v0, order, dims, num)
+                        got = dense.ttns_vector(algo.state, order)
+                        if not np.linalg.norm(mvec - got) <= TOL * max(1.0, np.linalg.norm(mvec)):
+                            ctx.corr_fail(case, f"the model's binding record of {steps} step(s) does not reproduce the "
+                                                f"implementation's state (|diff| = {np.linalg.norm(mvec - got):.3g})")
+                    except (ValueError, KeyError) as ex:
+                        ctx.corr_fail(case, f"model binding record unreadable: {ex}")
         # caller's object untouched (the algorithm works on its own copy)
         if not np.array_equal(dense.ttns_vector(ttns, order), v0):
             ctx.oracle_fail(case, "the initial state object handed to TEBD was modified")
@@ -849,7 +929,8 @@ def run(ctx):
         lines.extend(ls)
     outs = ctx.lean.batch(lines)
     bad = ["C08 swap", "C08 swap x", "C08 splitting 1:2", "C08 splitting a:1:", "C08 twosite q 1 2 - 2 - 1 1",
-           "C08 twosite p 1 2 - 2 -", "C08 seq 0:-:1 1:0:-", "C08 seq 0:-:1 / 0+1", "C08 frobnicate"]
+           "C08 twosite p 1 2 - 2 -", "C08 seq 0:-:1 1:0:-", "C08 seq 0:-:1 / 0+1", "C08 frobnicate",
+           "C08 steprec 0:-:1 1:0:-", "C08 steprec 0:-:1 / a", "C08 expsites 5/x/n", "C08 expsites 5/n"]
     answers = ctx.lean.batch(bad)
     if any(a != "bad-op" for a in answers):
         raise HarnessError(f"model driver accepts malformed requests: {list(zip(bad, answers))}")
